@@ -54,6 +54,10 @@ def parse_and_validate_assignment(indices, array_shape, value_shape):
             f"of shape {tuple(implied_shape)}"
         )
 
+    # ``reverse`` lists array axes; below it indexes the implied shape, in which
+    # integer indices take no place
+    reverse = [implied_shape_positions.index(i) for i in reverse if i in implied_shape_positions]
+
     # Set variables needed when creating the part of the assignment value
     offset = len(implied_shape) - value_ndim
     if offset >= 0:
@@ -181,6 +185,7 @@ def setitem_array_expr(out_name, array, indices, value):
         block_preceding_sizes = []
         overlaps = True
         dim_1d_int_index = None
+        pos_1d_int_index = None
 
         for dim, (index, (loc0, loc1)) in enumerate(zip(indices, locations)):
             integer_index = isinstance(index, int)
@@ -218,6 +223,9 @@ def setitem_array_expr(out_name, array, indices, value):
                     block_index_size = None
                     n_preceding = None
                     dim_1d_int_index = dim
+                    # its position among the non-integer indices (integer
+                    # indices take no place in the value's shape), as ``j`` below
+                    pos_1d_int_index = len(block_indices_shape)
                     loc0_loc1 = loc0, loc1
 
                 if not is_dask_collection(index) and not block_index.size:
@@ -239,9 +247,9 @@ def setitem_array_expr(out_name, array, indices, value):
         value_indices = base_value_indices[:]
         for i in non_broadcast_dimensions:
             j = i + offset
-            if j == dim_1d_int_index:
+            if dim_1d_int_index is not None and j == pos_1d_int_index:
                 value_indices[i] = value_indices_from_1d_int_index(
-                    indices[j], value_shape[i + value_offset], *loc0_loc1
+                    indices[dim_1d_int_index], value_shape[i + value_offset], *loc0_loc1
                 )
             else:
                 start = block_preceding_sizes[j]
